@@ -2,7 +2,7 @@ from typing import Any, Dict, List, Optional, cast
 
 from niltype import Nil
 
-from d42.declaration import SchemaVisitor
+from d42.declaration import DeclarationError, SchemaVisitor
 from d42.declaration.types import (
     AnySchema,
     BoolSchema,
@@ -46,7 +46,7 @@ class Substitutor(SchemaVisitor[GenericSchema]):
     def _from_native(self, value: Any) -> GenericSchema:
         try:
             return from_native(value)
-        except ValueError:
+        except (ValueError, DeclarationError):
             raise SubstitutionError(f"Can't convert {value!r} to schema")
 
     def visit(self, schema: GenericSchema, *, value: Any = Nil, **kwargs: Any) -> GenericSchema:
